@@ -2,6 +2,7 @@ import Lean.Data.Json
 import Ztr.Model.Filter
 import Ztr.Model.Layers
 import Ztr.Model.Shuffle
+import Ztr.Model.Digraph
 /-!
 Line protocol between the Python harness and the executable model: one JSON object per line in,
 one JSON object per line out.  `op` selects the model component.  Unknown or malformed requests are
@@ -73,12 +74,25 @@ def opShuffle (j : Json) : Except String Json := do
   let r := Ztr.Shuffle.shuffleAll layers js
   return Json.mkObj [("layers", Json.arr (r.map (fun (n, ts) => Json.arr #[jNats n, jNats ts])).toArray)]
 
+/-- `sccs`: DiGraph.sccs with explicit iteration orders -/
+def opSccs (j : Json) : Except String Json := do
+  let order ← J.nats! j "order"
+  let nb ← J.natss! j "nbrs"          -- nbrs[n] = iteration order of the neighbour set of node n
+  let trivial ← J.bool! j "trivial"
+  let na := nb.toArray
+  let nbrs : Nat → List Nat := fun n => na.getD n []
+  let fuel := Ztr.Digraph.fuelFor order nbrs
+  let r := Ztr.Digraph.run trivial nbrs fuel (Ztr.Digraph.init order)
+  return Json.mkObj [("out", jNatss r.1.out.reverse), ("halted", Json.bool r.2),
+    ("stack_empty", Json.bool r.1.stack.isEmpty)]
+
 def dispatch (j : Json) : Except String Json := do
   let op ← J.str! j "op"
   match op with
   | "filter" => opFilter j
   | "layers" => opLayers j
   | "shuffle" => opShuffle j
+  | "sccs" => opSccs j
   | _ => throw s!"unknown op {op}"
 
 partial def loop (h : IO.FS.Stream) (out : IO.FS.Stream) : IO Unit := do
